@@ -68,6 +68,8 @@ def case_tokens(case, ops, want_snaps=True):
         gi += n
     for ci, c in enumerate(comps):
         parents = [j for j, d in enumerate(comps) if ci in d.get("children", [])]
+        if c.get("ghost_parent"):
+            parents = parents + [9999]          # a parent outside the product: only "has a parent" is read
         tasks = [i for i, t in enumerate(T) if t.get("comp") == ci] + list(c.get("extra_tasks", []))
         out += q2(c.get("size", "1")) + [len(c.get("children", []))] + list(c.get("children", []))
         out += [len(parents)] + parents + [len(tasks)] + tasks
